@@ -74,6 +74,13 @@ func (s *Server) proxyRoute(c *gin.Context) {
 }
 
 func (s *Server) panicRoute(c *gin.Context, err any) {
+	if err == http.ErrAbortHandler {
+		// The reverse proxy aborts the handler when the upstream response is
+		// cut short after the headers were sent. Pass that on so the HTTP
+		// server aborts the client's response too rather than completing it.
+		panic(err)
+	}
+
 	s.logger.Error(
 		"handler panic",
 		zap.String("path", c.FullPath()),
